@@ -241,8 +241,10 @@ def leaves(t, out=None) -> Set[Term]:
 
 
 def subterms(t):
+    """Every non-empty tuple nested in t (terms, and the monomial / coefficient tuples of poly keys)."""
     if isinstance(t, tuple):
-        yield t
+        if t:
+            yield t
         for x in t:
             yield from subterms(x)
 
